@@ -68,9 +68,10 @@ def mul(x, y):
 
 
 class MNF:
-    def __init__(self, symmetric=(), vectors=(), index_norm=None):
+    def __init__(self, symmetric=(), vectors=(), index_norm=None, scalars=()):
         self.symmetric = set(symmetric)        # base terms known to be symmetric matrices
         self.vectors = set(vectors)            # terms known to be 1-D
+        self.scalars = set(scalars)            # index terms known to be single integers
         self.index_norm = index_norm or (lambda t: t)
 
     # ------------------------------------------------------------------ transposition
@@ -116,12 +117,16 @@ class MNF:
         rk, ck = self.idx_key(r), self.idx_key(c)
         if rk == "ALL" and ck == "ALL":
             return self.nf(base)
+        if base in self.symmetric and self.is_scalar_index(ck) and not self.is_scalar_index(rk):
+            rk, ck = ck, rk              # 1-D selection of a symmetric matrix: C[S, y] = C[y, S]
         return {(("B", base, rk, ck, False),): Fraction(1)}
 
     def nf(self, t):
         t = T(t)
         if not isinstance(t, tuple):
             raise Inconclusive("MNF: %r" % (t,))
+        if t in self.vectors or t in self.symmetric:
+            return self.atom(t)
         k = t[0]
         if k == "const":
             if isinstance(t[1], (int, float)) and not isinstance(t[1], bool):
@@ -199,7 +204,7 @@ class MNF:
         return self.atom(t)
 
     def scalar_like(self, t):
-        return t in self.scalars if hasattr(self, "scalars") else False
+        return t in self.scalars
 
 
 def show(nf):
